@@ -305,37 +305,47 @@ pub enum MVal {
     Hist { values: Vec<Num>, counts: Vec<u64> },
 }
 
-/// a number as compared: integers by lexeme, floats by bits
+/// a number as compared: observed numbers keep their lexeme; expected ones are `Int`/`Float`.
+/// Int: the lexeme must denote exactly that integer; Float: the lexeme, parsed with correct
+/// rounding, must give exactly that double (sign of zero included).
 #[derive(Clone, Debug)]
 pub enum Num {
     Int(u64),
     Float(f64),
+    Lex(String),
+}
+fn lex_is(l: &str, n: &Num) -> bool {
+    match n {
+        Num::Int(u) => {
+            if json::is_integer_lexeme(l) {
+                l == u.to_string()
+            } else {
+                // "5.0" / "5e0" style: accept only when exactly representable and equal
+                *u < (1u64 << 53) && l.parse::<f64>().map(|f| f == *u as f64).unwrap_or(false)
+            }
+        }
+        Num::Float(f) => l
+            .parse::<f64>()
+            .map(|g| g.to_bits() == f.to_bits())
+            .unwrap_or(false),
+        Num::Lex(m) => l == m,
+    }
 }
 impl PartialEq for Num {
     fn eq(&self, o: &Num) -> bool {
         match (self, o) {
+            (Num::Lex(l), other) | (other, Num::Lex(l)) => lex_is(l, other),
             (Num::Int(a), Num::Int(b)) => a == b,
-            (Num::Float(a), Num::Float(b)) => a.to_bits() == b.to_bits() || (*a == 0.0 && *b == 0.0 && a.is_sign_negative() == b.is_sign_negative()),
-            // an expected integral float that prints without fraction is indistinguishable
-            // from an integer lexeme: compare by value exactly
-            (Num::Int(a), Num::Float(b)) | (Num::Float(b), Num::Int(a)) => {
-                *b >= 0.0 && b.fract() == 0.0 && *b < 1.8446744073709552e19 && (*b as u64) == *a && (*a as f64) == *b
-                    && !(*b == 0.0 && b.is_sign_negative())
-            }
+            (Num::Float(a), Num::Float(b)) => a.to_bits() == b.to_bits(),
+            _ => false,
         }
     }
 }
 
 impl Num {
     pub fn from_lexeme(l: &str) -> Result<Num, String> {
-        if json::is_integer_lexeme(l) && !l.starts_with('-') {
-            if let Ok(u) = l.parse::<u64>() {
-                return Ok(Num::Int(u));
-            }
-        }
-        l.parse::<f64>()
-            .map(Num::Float)
-            .map_err(|e| format!("bad number {l}: {e}"))
+        l.parse::<f64>().map_err(|e| format!("bad number {l}: {e}"))?;
+        Ok(Num::Lex(l.to_string()))
     }
     pub fn from_emf(e: EmfNum) -> Num {
         match e {
